@@ -33,7 +33,7 @@ TRUSTED_BASE = [
 ]
 ASSUMPTIONS = ["commit dates after 2025-07-04", "agents follow the checkpoint protocol (human checkpoint before, AI checkpoint after an agent edit)"]
 
-OPS = [(8, "edit"), (5, "commit"), (3, "commit_partial"), (2, "branch"), (2, "switch"), (2, "reset"),
+OPS = [(8, "edit"), (5, "commit"), (3, "commit_partial"), (2, "commit_index_only"), (2, "branch"), (2, "switch"), (2, "reset"),
        (6, "destructive"), (2, "stash"), (1, "merge_squash")]
 
 
@@ -56,6 +56,8 @@ def scenario(args):
                 w.op_commit()
             elif op == "commit_partial":
                 w.op_commit_partial()
+            elif op == "commit_index_only":
+                w.op_commit_index_only()
             elif op == "branch":
                 w.op_branch()
             elif op == "switch":
